@@ -178,6 +178,58 @@ fn main() {
     verif::set_clock(Some((424_242, 1_337)));
     verif::set_hash_seed(hash_seed);
 
+    if id == 6 {
+        // a sweep: six networks (dropout, validation data) trained as the tasks of one
+        // parallel loop inside the pool; a worker that waits inside one `learn` may run
+        // another network's whole `learn` nested in that wait (work stealing does that)
+        use rayon::prelude::*;
+        let mut rng = Lcg(0x5eed + 6);
+        let mut nets: Vec<Network> = (0..6)
+            .map(|_| {
+                let mut net = Network::new(tensor::Shape::Single(3));
+                net.dense(4, Activation::Tanh, true, Some(0.5));
+                net.dense(2, Activation::Linear, true, None);
+                net.set_optimizer(optimizer::SGD::create(0.05, None));
+                net
+            })
+            .collect();
+        let xs: Vec<tensor::Tensor> = (0..6).map(|_| tensor::Tensor::single(rng.vec(3))).collect();
+        let ys: Vec<tensor::Tensor> = (0..6).map(|_| tensor::Tensor::single(rng.vec(2))).collect();
+        let vx: Vec<tensor::Tensor> = (0..3).map(|_| tensor::Tensor::single(rng.vec(3))).collect();
+        let vy: Vec<tensor::Tensor> = (0..3).map(|_| tensor::Tensor::single(rng.vec(2))).collect();
+        let xr: Vec<&tensor::Tensor> = xs.iter().collect();
+        let yr: Vec<&tensor::Tensor> = ys.iter().collect();
+        let vxr: Vec<&tensor::Tensor> = vx.iter().collect();
+        let vyr: Vec<&tensor::Tensor> = vy.iter().collect();
+        let digests: Vec<u64> = nets
+            .par_iter_mut()
+            .map(|net| {
+                let mut h: u64 = 0xcbf2_9ce4_8422_2325;
+                let mut eat = |x: f32| {
+                    h = (h ^ x.to_bits() as u64).wrapping_mul(0x0000_0100_0000_01B3);
+                };
+                let (tl, vl, va) = net.learn(&xr, &yr, Some((&vxr, &vyr, 1000)), 6, 3, None);
+                for x in tl.iter().chain(vl.iter()).chain(va.iter()) {
+                    eat(*x);
+                }
+                for p in cfg::parameters(net) {
+                    p.iter().for_each(|x| eat(*x));
+                }
+                for x in vxr.iter() {
+                    for y in cfg::flat(&net.predict(x)) {
+                        eat(y);
+                    }
+                }
+                h
+            })
+            .collect();
+        let mut h: u64 = 0xcbf2_9ce4_8422_2325;
+        for d in digests {
+            h = (h ^ d).wrapping_mul(0x0000_0100_0000_01B3);
+        }
+        println!("DIGEST {:016x}", h);
+        return;
+    }
     let (mut net, inputs, outputs, n, batch, v, m) = scenario(id);
     let mut rng = Lcg(0x5eed + id as u64);
     let to_x = |net_in: usize, data: Vec<f32>| -> tensor::Tensor {
